@@ -14,6 +14,7 @@ UNIT = Unit(
              "rest of the function (method checking, the insertion under the same key) is not in this unit; the impl table and diagnostics are shims"],
     items=[
         Adt(file="crates/compiler/src/tast.rs", kw="enum", name="Ty", rules=["attrs"]),
+        Adt(file="crates/compiler/src/env.rs", kw="enum", name="InherentImplKey", rules=["attrs", ("strip", "tast::")]),
         Raw(path="contracts/orphan.shim.rs"),
         Fn(file=T, name="is_local_name", ret="r",
            obligation="a name is local iff its package segment equals the current package",
